@@ -98,6 +98,55 @@ def _anc(parents, n):
         yield n
 
 
+def _validation_only(f, n, parents):
+    """The read `n` of the sharing limit can only refuse:
+    * it sits in a private validator -- a function that stores nothing, whose statements are tests, raises and returns of the
+      parameter itself (or None) -- or is the argument of a call of such a validator;
+    * or it is part of the value of a local flag whose every use is the test of an `if` that only raises."""
+    def is_validator(fn):
+        params = [a.arg for a in fn.args.args if a.arg not in ("self", "cls")]
+        if len(params) != 1:
+            return False
+        p = params[0]
+        for x in ast.walk(fn):
+            if isinstance(x, (ast.Assign, ast.AugAssign, ast.AnnAssign, ast.For, ast.While, ast.With, ast.Try, ast.Yield, ast.YieldFrom)):
+                return False
+            if isinstance(x, ast.Return) and x.value is not None and not (
+                    isinstance(x.value, ast.Name) and x.value.id == p or isinstance(x.value, ast.Constant) and x.value.value is None):
+                return False
+            if isinstance(x, ast.Call) and ast.unparse(x.func) not in ("isinstance", "TypeError", "ValueError", "type"):
+                return False
+        return any(isinstance(x, ast.Raise) for x in ast.walk(fn))
+    # inside a validator
+    if f.name.startswith("_") and is_validator(f.node):
+        return True
+    # argument of a validator call
+    p = parents.get(n)
+    if isinstance(p, ast.Call) and n in p.args and isinstance(p.func, ast.Attribute) and isinstance(p.func.value, ast.Name) and \
+            p.func.value.id in ("self", "cls") and f.cls is not None:
+        for fs in f.cls.methods.get(p.func.attr, []):
+            if is_validator(fs.node):
+                return True
+    # a flag that only guards a raise
+    a = n
+    while a in parents and not isinstance(a, ast.stmt):
+        a = parents[a]
+    if isinstance(a, ast.Assign) and len(a.targets) == 1 and isinstance(a.targets[0], ast.Name):
+        flag = a.targets[0].id
+        uses = [x for x in ast.walk(f.node) if isinstance(x, ast.Name) and x.id == flag and isinstance(x.ctx, ast.Load)]
+        def in_refusal_test(u):
+            b = u
+            while b in parents:
+                b = parents[b]
+                if isinstance(b, ast.If):
+                    return b.body and all(isinstance(s_, ast.Raise) for s_ in b.body) and not b.orelse and any(y is u for y in ast.walk(b.test))
+                if isinstance(b, ast.stmt):
+                    return False
+            return False
+        return bool(uses) and all(in_refusal_test(u) for u in uses)
+    return False
+
+
 def overlaps_taint(rep, idx):
     """shadow_overlaps -> _Shadow.overlaps -> only the balance test of prepare()."""
     sh = idx.find_class("Multiplexer._Shadow")
@@ -172,6 +221,8 @@ def overlaps_taint(rep, idx):
         elif any(isinstance(a_, ast.If) and a_.body and all(isinstance(s_, ast.Raise) for s_ in a_.body) and not a_.orelse and
                  any(y is n for y in ast.walk(a_.test)) for a_ in _anc(parents, n)):
             okuse += 1                                  # read by the test of a refusal (`if <test>: raise`): it can only refuse
+        elif _validation_only(f, n, parents):
+            okuse += 1                                  # a validator that hands its argument back, or a flag that only guards a raise
         else:
             rep.bad("C05.7", f.site, f"shadow_overlaps used at line {n.lineno}", "the sharing limit must only be passed to the shadow registers")
     rep.ok("C05.7", mux.site, "Multiplexer only forwards shadow_overlaps to its shadows", f"{okuse} forwarding use(s)", nontrivial=False)
